@@ -142,7 +142,16 @@ func runC09(c *core.Ctx) {
 			o.Set(a, b, rel)
 			o.Set(a, a, absint.EQ)
 			o.Set(b, b, absint.EQ)
-			outs, err := run(tv, tv, o, nil)
+			// ordered operands are numbers: neither is NaN (the NaN cases are judged separately below)
+			outs, err := run(tv, tv, o, func(h *absint.Hooks) {
+				prev := h.Call
+				h.Call = func(st *absint.State, call *ast.CallExpr, callee string, recv absint.Val, args []absint.Val) (absint.Val, bool) {
+					if callee == "math.IsNaN" && len(args) == 1 && (args[0].Canon() == a || args[0].Canon() == b) {
+						return absint.Bool(false), true
+					}
+					return prev(st, call, callee, recv, args)
+				}
+			})
 			key := "octosql.Value.Compare/" + pr.tid + "/" + string(rel)
 			if err != nil {
 				c.Unknown("ABS1", key, cmp.Decl.Pos(), err.Error())
